@@ -25,8 +25,9 @@ Wires (exactly what the dispatchers do, using the libraries' own functions):
 Oracle: what arrives has exactly the sender's type and is equal, checked strictly (same types at every leaf, same
 dict key types); plus pydantic's own ==.  Malformed envelopes (missing/unknown `_type`/`_ns`, `_type` naming a
 non-message attribute of the namespace, a message of another namespace) must raise ProtocolDeserializationException.
-Non-finite floats (inf, -inf) cannot be written in JSON: they are run as a separately labelled class whose outcome is
-only recorded.  NaN is excluded (NaN != NaN).
+Non-finite floats (inf, -inf) are not JSON proper: through the RPC/REST wires they are run as a separately labelled class
+whose outcome is only recorded; through serialize() -> json.dumps -> json.loads -> deserialize() (wire "json-text", Python's json
+module writes and reads Infinity) they must survive like any other value.  NaN is excluded (NaN != NaN).
 """
 import enum
 import inspect
@@ -431,6 +432,10 @@ def transport(cls, m, wire):
     if wire == "rpc-reply":
         text, finish = wire_rpc_reply(m)
         return text, finish()
+    if wire == "json-text":
+        # (sets are written as arrays and enums by value, as pydantic does on the RPC wire)
+        text = json.dumps(serialize(m), default=lambda o: list(o) if isinstance(o, (set, frozenset, tuple)) else o.value if isinstance(o, enum.Enum) else str(o))
+        return text, deserialize(json.loads(text))
     if wire == "rest":
         EM, AM = _ns("engine_messages"), _ns("aggregator_messages")
         if cls.__name__ == "RegisterEngineMsg":
@@ -673,6 +678,12 @@ def work(item):
     def roundtrips(m, idxs, extra=None):
         nonfinite = any(ci.atomics[i][3] for i in idxs)
         cnt["nonfinite_cases" if nonfinite else "cases"] += 1
+        if nonfinite:
+            # Python's json module writes and reads Infinity: serialize() -> JSON text -> deserialize() must keep the value
+            cnt["evaluations"] += 1
+            o, sigs = judge_roundtrip(ci, m, idxs, "json-text")
+            outcomes[f"nonfinite:json-text:{o}"] = outcomes.get(f"nonfinite:json-text:{o}", 0) + 1
+            record(sigs, {"kind": "roundtrip", "cls": key, "deviations": [ci.atomics[i][0] for i in idxs], "wire": "json-text", **(extra or {})})
         for wire in wires_for(ci.cls):
             cnt["evaluations"] += 1
             if nonfinite:
@@ -775,10 +786,10 @@ def run(ctx):
              "production wire that applies to the class; plus every malformed envelope. Cases are distinct by "
              "construction (distinct deviation sets); non-trivial = at least one field deviates from the base instance",
         samples=samples, exhaustive=True, classes=len(desc), per_class=desc, message_cases=tot["cases"],
-        nonfinite_cases_recorded_only=tot["nonfinite_cases"], combinations_rejected_by_constructor=tot["rejected_combinations"],
+        nonfinite_cases_asserted_over_json_text=tot["nonfinite_cases"], combinations_rejected_by_constructor=tot["rejected_combinations"],
         malformed_envelopes_asserted=tot["malformed"], malformed_envelopes_recorded_only=tot["malformed_unasserted"],
         outcomes=outcomes, values_dropped_at_setup=dropped,
-        alphabets={"str": STRS, "int": INTS, "float": FLOATS, "float_nonfinite_recorded_only": [repr(x) for x in NONFINITE]},
+        alphabets={"str": STRS, "int": INTS, "float": FLOATS, "float_nonfinite_asserted_over_json_text_recorded_only_over_rpc": [repr(x) for x in NONFINITE]},
     )
     ctx.assumptions += [
         "the wire of a class is the dispatcher path that sends it: rpc request for every class, rpc reply for the classes of "
